@@ -21,8 +21,9 @@ claim("C04", "DESIGN.md 5/C04", "Lean 4 theorem over the executable model + diff
 claim("C03", "DESIGN.md 5/C03", "Lean 4 non-interference theorem over the executable model + differential correspondence + mask/payload-twin oracles",
       "Theorem MPilot.C03.payload_irrelevant: for all 31 data commands, any two input lists that look the same (element type, shape, "
       "missing cells, non-missing values) give the same error or visibly equal results, whatever is stored beneath missing cells - "
-      "whole-array statistics included. The mask-superset / undefined-only clauses are decided on the implementation by oracle and by "
-      "the correspondence with the model (a Lean mask theorem for all commands is not yet proved: partial).",
+      "whole-array statistics included; mask_superset (all 31 commands: a result has a cell for every input cell and is missing wherever any input is) and "
+      "single_input_mask_exact (the 16 single-input commands add no missing cell unless the mapping is undefined for the whole array). On the implementation every case is also run "
+      "with other payloads beneath the missing cells, NaN and infinities included, through the whole pipeline, and with zero weights at every position.",
       TB)
 claim("C05", "DESIGN.md 5/C05 and 9", "Lean 4 theorems (shape; equivariance under any common rearrangement of the cells) + differential correspondence + permutation/reshape/layout twin oracles",
       "Theorems in MPilot.C05: shape_preserved - every data command that succeeds returns the shape of its first input, any rank; rearr_equivariant - applying one rearrangement "
@@ -72,12 +73,14 @@ claim("C01", "DESIGN.md 5/C01", "Lean 4 induction over fuel and rank on the exec
       "Theorems in MPilot.C01 for every acyclic program (rank function on reads), every value type and every computation: a successful Command.run keeps the invariant "
       "(no body entered twice, finishes = memo, balanced log, everything a command reads finished before it) - runCmd_ok, run_ok; every command is executed exactly once "
       "(run_executes_each_exactly_once, under the premise that directly referenced results are read by their consumer, which the correspondence checks for all built-ins); "
-      "re-running or re-reading executes nothing (run_idempotent, result_memoised).", PB)
+      "re-running or re-reading executes nothing (run_idempotent, result_memoised). Histories on the implementation include failed runs whose cause is removed, deep copies of the "
+      "program between runs (a value in the model: the copy is the program), and consumers added through the API with command objects as argument values.", PB)
 claim("C02", "DESIGN.md 5/C02", "Lean 4 theorems (the run computes a solution of the graph equations; solutions are unique) + replay of every real execute call on the model + invariance oracles",
       "Theorems in MPilot.C02: run_sol (after a successful run every memoised result equals compute applied to the results of the commands it reads), sol_unique "
       "(an acyclic graph has at most one such assignment: its evaluation), results_order_independent (any permutation of the commands gives the same results), "
       "results_unaffected_by_added_commands. Metadata never reaches compute of the data commands (DataCmd has no such field). Each real execute call made while running "
-      "random typed EEMS models is replayed on the model's exec with its actual inputs; order/metadata/consumer invariance is evaluated on the real programs.", PB)
+      "random typed EEMS models is replayed on the model's exec with its actual inputs; order/metadata/consumer invariance is evaluated on the real programs; every EEMSRead of a model "
+      "is compared with the column its file holds at that moment (files are rewritten between models; values close to the missing-value marker are data); a 450-step model written in dependency order is evaluated.", PB)
 claim("C12", "DESIGN.md 5/C12", "Lean 4 iff-characterisations of load and pre-pass acceptance + fault-injection matrix correspondence + by-construction expectation oracles",
       "Theorems in MPilot.C12: addCommand_ok_iff (accepted by add_command iff result name fresh, required parameters present, no undeclared parameter unless extras allowed), "
       "addCommand_errors / unknown_command (specific error with the offender's line, in the code's order), prepassCmd_ok_iff (pre-pass accepts iff every declared argument cleans), "
@@ -90,7 +93,8 @@ claim("C13", "DESIGN.md 5/C13", "Lean 4 theorems on the error algebra of the mod
 claim("C14", "DESIGN.md 5/C14", "Lean 4 soundness proof of the depth-first cycle check + cycle/acyclic graph enumeration correspondence + rejection oracles",
       "Theorems in MPilot.C14: cycle_rejected_before_execution (a detected cycle makes run return RecursiveModelStructure with log and memo untouched), visit_sound / no_cycle_ranked "
       "(if the check reports no cycle the reference graph has a rank function - so a model with any reference cycle, self-reference included, is never accepted, and by C01 evaluation "
-      "then terminates within fuel = number of commands). Completeness (an acyclic model is never rejected) is decided by the correspondence and oracle on enumerated graphs, not yet a theorem: partial.", PB)
+      "then terminates within fuel = number of commands); visit_complete / acyclic_accepted (completeness: a model whose reference graph has a rank function is never rejected; the "
+      "check's fuel suffices by a pigeonhole on the search path). All digraphs on <= 3 commands, sampled larger ones, rings of built-in commands and cycles closed through the API after a run are compared with the real check.", PB)
 
 XB = ("Trusted: Lean 4.33 kernel, axioms propext/Classical.choice/Quot.sound only (audited each run); the hand-written lexer+grammar model (a transcription of the algorithm "
       "validated against PLY on >450 000 generated texts, and re-compared on every run); PLY 3.11 and Python's re/unicode_escape are modelled, not verified; Python's \\d is "
